@@ -4,7 +4,26 @@ All code under proof is extracted from crates/emmylua_ls/src/handlers/{fold_rang
 on every run. The syntax tree (rowan) and LuaDocument are shims: LuaDocument's contracts are the ones PROVED in unit
 c22_lineindex; the tree contracts (sibling order, ancestry containment, ranges inside the text) are ASSUMED and listed
 under `trusted`.
+
+PROVED (default mode, exit 0)
+  fold      FoldingRangeBuilder::{new, get_root, get_document, build, push, begin_region, finish_region,
+            get_block_collapsed_range, get_folding_lsp_range} and ALL twelve callers that construct a FoldingRange
+            (stats.rs x6, expr.rs x3, comment.rs, imports.rs, mod.rs build_folding_ranges), whole functions, no slices:
+            builder invariant "every held range has start <= end", build() returns exactly the held ranges.
+  symbols   LuaSymbol::{new, with_selection_range, add_child}, DocumentSymbolBuilder::{new, add_node_symbol,
+            add_token_symbol, contains_symbol, link_parent_child, build, build_child_symbol}: table invariant (selection
+            inside range, child range inside parent range along the links, links closed and acyclic) is preserved by every
+            mutation UNDER call-site preconditions, and build() turns a table with the invariant into a DocumentSymbol tree
+            with selection_range inside range and children inside parents at every level; build_child_symbol terminates.
+            + three statement slices of call sites of with_selection_range.
+  selection slice of on_document_selection_range_handle (everything after the token is known): outside doc descriptions
+            the chain is exactly token, parent, grand-parent … root and every parent range CONTAINS its child's range.
+
+REFUTED on the real code (see `findings`; C26_RANGES_FINDINGS=1 turns both into failing obligations):
+  * "selection ranges STRICTLY grow outward": equal ranges are never skipped.
+  * "document symbols nest within their parents": children of a binding of a multi-name local/assignment lie outside it.
 """
+import os
 import re
 
 H = 'crates/emmylua_ls/src/handlers/'
@@ -99,6 +118,8 @@ FOLD_ITEMS = {
         proof=[
             (r'let folding_range = FoldingRange \{', 'before', '''proof {
                 assert(range_in_doc(self.document, start));
+                // min of the two starts <= max of the two ends, whatever the order of the two comments
+                assert(region_start_offset.raw <= region_end_offset.raw) /*@C26.fold.start-le-end*/;
                 axiom_line_col_monotonic(self.document, region_start_offset, region_end_offset);
             }'''),
             (r'self\.push\(folding_range\);', 'before', 'proof { assert(fold_ok(folding_range)) ' + FOLD_LABEL + '; }'),
@@ -137,6 +158,8 @@ FOLD_ITEMS = {
                 axiom_range_in_doc(document, next_node);
                 axiom_line_col_monotonic(document, sp_range(prefix_node).end, sp_range(next_node).start);
             }'''),
+            (r'self\.get_folding_lsp_range\(start_line, end_line, start_col, end_col\)', 'before',
+             'proof { assert(start_line <= end_line) /*@C26.fold.start-le-end*/; }'),
         ]),
     'build_for_stat_fold_range': block_stat('build_for_stat_fold_range', 'for_stat'),
     'build_for_range_stat_fold_range': block_stat('build_for_range_stat_fold_range', 'for_range_stat'),
@@ -199,7 +222,7 @@ FOLD_ITEMS = {
                 // statement, and every statement still to come starts after it
                 (start is Some && end is Some) ==> ({
                     let s = start->Some_0; let e = end->Some_0;
-                    &&& s.raw <= e.raw && sp_in_doc(builder.document, s) && sp_in_doc(builder.document, e)
+                    &&& s.raw <= e.raw && sp_in_doc(builder.document, s) && sp_in_doc(builder.document, e) /*@C26.fold.start-le-end.inv*/
                     &&& forall|k: int| it.index@ <= k < it.seq().len() ==> e.raw <= sp_range(#[trigger] it.seq()[k]).start.raw
                 }),'''},
         proof=[(r'if is_require_stat\(stat\.clone\(\), require_like_func\)\.unwrap_or\(false\) \{', 'before',
@@ -232,7 +255,7 @@ SEL_ITEMS = {
                 'head': '''pub fn selection_chain(semantic_model: SemanticModel, document: LuaDocument, token: LuaSyntaxToken, offset: TextSize,
         mut result: Vec<SelectionRange>) -> Option<Vec<SelectionRange>>''',
                 'tail': 'Some(result)'},
-        'rules': ['c26r-into-iter-rev'],
+        'rules': [('c26r-into-iter-rev', {'optional': True})],
         'ret': 'r',
         'requires': '''sp_doc_ok(&document),
             // the token was found in the tree parsed from this document (root.syntax().token_at_offset), and the model's
@@ -243,7 +266,7 @@ SEL_ITEMS = {
             // outside a doc description one chain is produced: token, parent, grand-parent, … root
             r matches Some(res) ==> (!in_description(token) ==> res@.len() == result@.len() + 1
                 && sel_ranges(res@.last()).len() == sp_depth(token) + 1
-                && sel_ranges(res@.last())[0] == doc_lsp_range(&document, sp_range(token))) /*@C26.selection.chain-is-ancestry*/,
+                && is_ancestry(&document, token, sel_ranges(res@.last()))) /*@C26.selection.chain-is-ancestry*/,
             // every parent range contains its child's range: on the whole chain outside a description, from the first
             // ancestor node on inside a description (the description detail ranges in front are not covered)
             r matches Some(res) ==> (res@.len() == result@.len() + 1 ==> {
@@ -254,18 +277,12 @@ SEL_ITEMS = {
         'iter_names': {0: 'it', 1: 'it2'},
         'loops': {
             0: '''invariant
-                sp_doc_ok(&document), sp_tree(token) == sp_doc_id(&document),
+                sp_tree(token) == sp_doc_id(&document),
                 ancestor_chain(token, it.seq()),
-                ranges@.len() == init.len() + it.index@,
-                k == (if in_description(token) { init.len() as int } else { 0 }),
-                !in_description(token) ==> init.len() == 1,
-                it.index@ > 0 ==> ranges@.last() == sp_range(it.seq()[it.index@ - 1]),
-                (it.index@ == 0 && !in_description(token)) ==> ranges@.last() == sp_range(token),
-                ranges@.len() > 0 && !in_description(token) ==> ranges@[0] == sp_range(token),
-                off_growing_from(&document, ranges@, k) /*@C26.selection.parent-contains-child.inv*/,''',
+                chain_inv(&document, token, it.seq(), ranges@, k, it.index@ as int, init.len() as int) /*@C26.selection.parent-contains-child.inv*/,''',
             1: '''invariant
                 sp_doc_ok(&document),
-                it2.seq() == rs.reverse(),
+                it2.seq() == rs.reverse() /*@C26.selection.outermost-first*/,
                 forall|i: int| 0 <= i < rs.len() ==> range_in_doc(&document, #[trigger] rs[i]),
                 (it2.index@ == 0) == (parent is None),
                 parent matches Some(p) ==> sel_ranges(*p) == lsp_seq(&document, rs.subrange(rs.len() - it2.index@, rs.len() as int)) /*@C26.selection.chain-is-ancestry.inv*/,''',
@@ -273,30 +290,24 @@ SEL_ITEMS = {
         'proof': [
             (r'for ancestor in token\.parent_ancestors\(\)', 'before', '''let ghost init = ranges@;
             let ghost k: int = if in_description(token) { init.len() as int } else { 0 };
+            let ghost anc0 = Seq::<Syn>::empty();
             proof {
                 axiom_range_in_doc(&document, token);
-                assert(off_growing_from(&document, ranges@, k));
+                assert forall|i: int| 0 <= i < ranges@.len() implies range_in_doc(&document, #[trigger] ranges@[i]) by { }
+                lemma_anc_init(&document, token, anc0, ranges@);
+                reveal(chain_inv);
             }'''),
-            (r'let range = ancestor\.text_range\(\);', 'before', '''proof {
-                lemma_chain(token, it.seq(), it.index@ as int);
-                axiom_range_in_doc(&document, ancestor);
-            }'''),
+            (r'for ancestor in token\.parent_ancestors\(\) \{', 'after',
+             'proof { lemma_anc_step(&document, token, it.seq(), ranges@, k, it.index@ as int, init.len() as int); }'),
+            (r'let mut parent: Option<Box<SelectionRange>> = None;', 'before', '''let ghost rs = ranges@;
+            proof { reveal(chain_inv); }'''),
             (r'let mut parent: Option<Box<SelectionRange>> = None;', 'before', 'let ghost rs = ranges@;'),
             (r'let lsp_range = document\.to_lsp_range\(range\)\?;', 'before', '''let ghost oldp = parent;
             proof { assert(range == rs[rs.len() - 1 - it2.index@]); }'''),
-            (r'parent = Some\(Box::new\(selection_range\)\);', 'after', '''proof {
-                let n = rs.len() as int; let j = it2.index@ as int;
-                let now = lsp_seq(&document, rs.subrange(n - j - 1, n));
-                let before = lsp_seq(&document, rs.subrange(n - j, n));
-                match oldp {
-                    None => { assert(sel_ranges(*parent->Some_0) =~= now); }
-                    Some(p) => { assert(seq![doc_lsp_range(&document, range)] + before =~= now); }
-                }
-            }'''),
-            (r'result\.push\(\*selection_range\);', 'before', '''proof {
-                assert(rs.subrange(0, rs.len() as int) =~= rs);
-                lemma_growing_lsp(&document, rs, k);
-            }'''),
+            (r'parent = Some\(Box::new\(selection_range\)\);', 'after',
+             'proof { lemma_sel_step(&document, rs, it2.index@ as int, oldp, *parent->Some_0); }'),
+            (r'result\.push\(\*selection_range\);', 'before',
+             'proof { lemma_sel_done(&document, token, rs, k, sel_ranges(*selection_range)); }'),
         ],
     },
 }
@@ -381,7 +392,7 @@ def add_symbol(name, elem):
                 Some(p) => p != id_of(%(e)s) && (%(m)s.contains_key(p) ==> off_inside(symbol.range, %(m)s[p].range)),
                 // no parent given: the symbol is linked under the NEAREST ancestor node that has a symbol; whichever that is,
                 // it is not the element itself (same kind and range) and its symbol's range contains the new one.
-                // (Only call site: the root chunk, document_symbol/mod.rs:57, which has no ancestors.)
+                // (Only call site with None: add_node_symbol for the root chunk, document_symbol/mod.rs:57, which has no ancestors.)
                 None => %(anc)s,
             }''' % {'d': DOC_S, 'm': M_OLD, 'e': elem, 'anc': anc_pre % {'e': elem, 'm': M_OLD}},
         ensures='''r == id_of(%(e)s) /*@C26.symbols.id*/,
@@ -464,7 +475,9 @@ SYM_ITEMS = {
                 if lua_symbol.selection_range is Some {
                     lemma_inside_lsp(self.document, lua_symbol.selection_range->Some_0, lua_symbol.range);
                 }
-            }''')]),
+            }'''),
+            (r'self\.build_child_symbol\(&mut document_symbol, lua_symbol\);', 'before',
+             'proof { assert(lsp_inside(document_symbol.selection_range, document_symbol.range)) /*@C26.symbols.selection-inside-range*/; }')]),
     'DocumentSymbolBuilder::build_child_symbol': fn(
         SB, 'build_child_symbol', 'DocumentSymbolBuilder',
         rules=['c26r-closure-contract-to-lsp-range'],
@@ -505,6 +518,10 @@ SYM_ITEMS = {
                     lemma_inside_lsp(self.document, child_symbol.selection_range->Some_0, child_symbol.range);
                 }
                 lemma_inside_lsp(self.document, child_symbol.range, symbol.range);
+            }'''),
+            (r'self\.build_child_symbol\(&mut lsp_document_symbol, ', 'before', '''proof {
+                assert(lsp_inside(lsp_document_symbol.selection_range, lsp_document_symbol.range)) /*@C26.symbols.selection-inside-range*/;
+                assert(lsp_inside(lsp_document_symbol.range, document_symbol.range)) /*@C26.symbols.child-inside-parent*/;
             }'''),
             (r'document_symbol\s*\.children\s*\.get_or_insert_with', 'before', 'let ghost before = *document_symbol;'),
             (r'\.push\(lsp_document_symbol\);', 'after', '''proof {
@@ -557,7 +574,9 @@ def with_sel_slice(host_file, host, name, head, frm, to, tail, owner, sel, extra
                 axiom_range_in_doc(builder.document, %(o)s);
                 axiom_range_in_doc(builder.document, %(s)s);
                 axiom_parent_contains(%(s)s);
-            }''' % {'o': owner, 's': sel})],
+            }''' % {'o': owner, 's': sel}),
+            (r'let \w+ = builder\.add_node_symbol\(', 'before',
+             'proof { assert(sym_ok(builder.document, symbol)) /*@C26.symbols.selection-inside-range*/; }')],
     }
 
 
@@ -576,10 +595,10 @@ CALLSITE_ITEMS = {
         'ret': 'r',
         'ensures': 'r matches Some(t) ==> child_of(t, comment) && sp_kind(t) == sp_kind_of_token_kind(LuaTokenKind::TkDocRegion) /*@C26.symbols.region-token-is-child*/',
         'iter_names': {0: 'it'},
-        'loops': {0: '''invariant
-                forall|i: int| 0 <= i < it.seq().len() ==> child_of(#[trigger] not_syn(it.seq()[i]), comment),
-            invariant_except_break
+        'loops': {0: '''invariant_except_break
                 region_token is None,
+            invariant
+                forall|i: int| 0 <= i < it.seq().len() ==> child_of(#[trigger] not_syn(it.seq()[i]), comment),
             ensures
                 region_token matches Some(t) ==> child_of(t, comment) && sp_kind(t) == sp_kind_of_token_kind(LuaTokenKind::TkDocRegion),'''},
         'proof': [(r'if token\.kind\(\) == LuaTokenKind::TkDocRegion\.into\(\) \{', 'before',
@@ -594,14 +613,52 @@ CALLSITE_ITEMS = {
         'symbol_id', 'comment', 'region_token'),
 }
 
+# ---------------------------------------------------------------------------------------------------------------
+# FINDINGS MODE (C26_RANGES_FINDINGS=1): the two clauses of the property that the real code does NOT satisfy, stated as
+# obligations so that the refutation is reproducible with the verifier. They are OFF by default: the unit then contains
+# only what is fully proved. Both have concrete failing inputs replayed on the real code (see `findings`).
+# ---------------------------------------------------------------------------------------------------------------
+FINDINGS_MODE = os.environ.get('C26_RANGES_FINDINGS') == '1'
+FINDING_ITEMS = {
+    # stats.rs:37-41: the range of the symbol of a local binding. mod.rs:131-135 then hangs the symbols of the value
+    # expression (closure, table fields) under this symbol: the value expression must lie inside the symbol's range
+    'build_local_stat_symbol::binding_range': {
+        'src': {'kind': 'slice', 'name': 'local_binding_range', 'in': {'file': SST, 'kind': 'fn', 'name': 'build_local_stat_symbol'},
+                'from': r'let range = if simple_local \{', 'to': r'decl\.get_range\(\)\s*\};',
+                'head': 'pub fn local_binding_range(simple_local: bool, local_stat: LuaLocalStat, decl: &LuaDecl, value_expr: LuaExpr) -> TextRange',
+                'tail': 'range'},
+        'ret': 'r',
+        'requires': '''// the value expression bound to this name is a child of the statement; the declaration's range is the name's
+            // range, a child of the statement in front of the value expressions
+            child_of(value_expr, local_stat), sp_range(local_stat).wf(), sp_range(value_expr).wf(), sp_decl_range(decl).wf(),
+            off_inside(sp_decl_range(decl), sp_range(local_stat)), sp_decl_range(decl).end.raw <= sp_range(value_expr).start.raw''',
+        'ensures': 'off_inside(sp_range(value_expr), r) /*@C26.symbols.child-inside-parent*/',
+        'body_first': 'proof { axiom_parent_contains(value_expr); }',
+    },
+}
+if FINDINGS_MODE:
+    SEL_ITEMS['selection_chain']['ensures'] += ''',
+            // the property AS STATED: strictly growing — REFUTED (a token and its single-child parent node have equal ranges)
+            r matches Some(res) ==> (res@.len() == result@.len() + 1 && !in_description(token)
+                ==> strictly_growing_from(sel_ranges(res@.last()), 0)) /*@C26.selection.strictly-growing*/'''
+
 ITEMS = {}
+if FINDINGS_MODE:
+    ITEMS.update(FINDING_ITEMS)
 ITEMS.update(CALLSITE_ITEMS)
 ITEMS.update(FOLD_ITEMS)
 ITEMS.update(SEL_ITEMS)
 ITEMS.update(SYM_ITEMS)
 
+def _template():
+    with open(os.path.join(os.path.dirname(os.path.abspath(__file__)), 'template.rs'), encoding='utf-8') as f:
+        t = f.read()
+    return t.replace('//@@FINDINGS\n', '//@@ build_local_stat_symbol::binding_range\n' if FINDINGS_MODE else '')
+
+
 UNIT = {
     'items': ITEMS,
+    'template_text': _template(),
     'extra_rules': [
         ('c26r-closure-contract-to-lsp-range', r'\|range\| self\.document\.to_lsp_range\(range\)',
          '|range: TextRange| -> (o: Option<lsp_types::Range>)\n'
@@ -624,9 +681,201 @@ UNIT = {
         r'assume_specification<T, F: FnOnce\(\) -> T>\[ Option::<T>::get_or_insert_with \]',
         r'assume_specification<\'a, K: Eq \+ Hash \+ Borrow<Q>, V, S: BuildHasher, A: Allocator, Q: Hash \+ Eq \+ \?Sized>\[ HashMap::<K, V, S, A>::get_mut \]',
     ],
-    'min_obligations': 20,
-    'trusted': [],
-    'not_covered': [],
-    'samples': [],
-    'mutants': [],
+    'min_obligations': 80,
+    'trusted': [
+        # ---- proved elsewhere --------------------------------------------------------------------------------------
+        'LuaDocument::get_line_col shim: r == Some(sp_pos(doc, off)); line, col < u32::MAX — proved in unit c22_lineindex '
+        '(C22.doc.get_line_col, lemma_position_fits) under sp_doc_ok = c22 wf(line_index, text) [includes text.len() < 2^32 - 1] '
+        'and sp_in_doc = offset <= text.len() on a char boundary; that the position is a FUNCTION of (document, offset) is the '
+        'uniqueness of the line an offset lies on (as in unit c26_semantic_tokens)',
+        'LuaDocument::to_lsp_range shim: r == Some(range of the LSP positions of range.start / range.end), start <= end — proved '
+        'in unit c22_lineindex (C22.doc.to_lsp_range, C21.range-wellformed)',
+        'axiom_line_col_monotonic (external_body proof fn): proved in unit c22_lineindex: lemma_line_col_monotonic + lemma_position_fits',
+        # ---- assumed: the syntax tree --------------------------------------------------------------------------------
+        'rowan syntax tree, ASSUMED (shims on the single opaque element type `Syn`): prev_sibling_or_token / next_sibling_or_token '
+        'return an element that ends before / starts after this one, in the same tree with the same parent, with fewer siblings '
+        'before / after it (sp_before / sp_after: the finite sibling list); parent() == sp_parent; axiom_parent_contains: a '
+        'parent\'s range contains its child\'s range, same tree, depth one less; typed child accessors (get_block, get_else_clause, '
+        'get_literal) return direct children; `children()`-style accessors (get_else_if_clause_list, get_stats, '
+        'children_with_tokens) return direct children in text order; descendants() yields nodes of the same tree; '
+        'parent_ancestors() yields exactly the sp_depth(token) ancestors, nearest first',
+        'iterator-returning tree accessors are shimmed as functions returning the Vec of what the iterator yields (get_stats, '
+        'get_else_if_clause_list, children_with_tokens, descendants::<LuaAst>, parent_ancestors): the `for` loops over them are the '
+        'repository text, the laziness of the iterators is not modelled (the loop bodies do not mutate the tree)',
+        'all rowan / AST handle types (LuaSyntaxNode, LuaSyntaxToken, SyntaxElement, LuaBlock, LuaForStat, …) are aliases of ONE '
+        'opaque type: the extracted code is type-checked against a superset of the real typing',
+        'axiom_range_in_doc: every element of the tree parsed from a document has an ordered range whose ends are offsets of that '
+        'document\'s text on char boundaries (C01: tree text == input text; tokens are whole chars). sp_tree(e) == sp_doc_id(doc) '
+        '("the tree was parsed from this document\'s text": SemanticModel pairs get_root() with get_document()) is a PRECONDITION of '
+        'the handler-level functions',
+        'LuaKind / LuaTokenKind conversions (`.into()`) are uninterpreted functions; LuaTokenKind, LuaAst, LuaLiteralToken are '
+        'transcribed with the variants the code names + `Other`',
+        # ---- std ------------------------------------------------------------------------------------------------------
+        'Option::get_or_insert_with, HashMap::get_mut: std doc contracts as assume_specification (get_mut: same text as unit '
+        'c10_remove2); vx_into_iter_rev: std contract of Vec::into_iter + DoubleEndedIterator::rev (rule c26r-into-iter-rev)',
+        'obeys_key_model::<LuaSyntaxId>() (LuaSyntaxId derives Hash/Eq on (LuaKind, TextRange)) is a precondition of every fn '
+        'touching the symbol map; the Hash impl of the shim is external_body',
+        'text-size shim (units/common/textsize.rs) + Ord for TextSize (derived in text-size 1.1.1) added here',
+        'lsp_types::{Position, Range, FoldingRange, FoldingRangeKind, DocumentSymbol, SymbolKind, SymbolTag, SelectionRange} '
+        'transcribed from emmy_lsp_types 0.1.0',
+        # ---- shimmed callees --------------------------------------------------------------------------------------------
+        'fold_range/imports.rs is_require_stat: shimmed callee WITHOUT contract (the fold property holds whatever it answers); '
+        'Emmyrc projected to runtime.require_like_function',
+        'document_selection_range/mod.rs add_detail_ranges: shimmed callee; ASSUMED to only append ranges of the model\'s document '
+        '(nothing assumed about their nesting)',
+    ],
+    'call_site_assumptions': [
+        'FoldingRangeBuilder::begin_region / finish_region: the argument is a range of the document (the only call sites, '
+        'fold_range/comment.rs:30 and :32, are INSIDE the unit: build_comment_fold_range passes token.text_range() of a child token)',
+        'DocumentSymbolBuilder::add_node_symbol / add_token_symbol preconditions (NOT checked by the builder, which neither '
+        'clamps nor compares ranges): (a) sym_ok: the symbol\'s selection range, if any, lies inside its range; (b) the id is fresh; '
+        '(c) the new symbol\'s range lies inside the range of the symbol stored under `parent`. 17 call sites:',
+        '  (a) selection inside range — with_selection_range is called at 3 sites: stats.rs:201 build_func_stat_symbol (name node, '
+        'a child of the statement: PROVED, slice build_func_stat_symbol::symbol); comment.rs:39 build_doc_region_symbol (`--region` '
+        'token, a child of the comment: PROVED, slices ::region_token + ::symbol); stats.rs:173 build_local_func_stat_symbol '
+        '(name_range = decl.get_range() from the declaration index: ASSUMED to be the range of the name token, by reading '
+        'emmylua_code_analysis decl analysis; not under contract). All other sites use LuaSymbol::new (no selection range)',
+        '  (c) range inside parent\'s range — by reading: parent ids are the symbols of enclosing syntactic constructs whose range '
+        'is their node range (root mod.rs:57, for stats.rs:105/137 (+ loop variables :119/:152), if/clauses stats.rs:219/235, do stats.rs:257, '
+        'func stats.rs:181/203, closure expr.rs:58, table expr.rs:102, single-name local/assign stats.rs:45/81) EXCEPT when the parent is a binding symbol of a multi-name local/assign statement '
+        '(stats.rs:37-41 / 72-76: range = decl.get_range() = the NAME only): children hung under it by mod.rs:133/141 '
+        'process_expr(.., binding.symbol_id, true) -> expr.rs:58 (closure), expr.rs:117 (table fields), expr.rs:80 (closure params) '
+        'lie OUTSIDE it. This is a genuine violation (see findings)',
+        'DocumentSymbolBuilder::build: the root chunk\'s id is stored (mod.rs:57 adds it first; nothing removes keys) — by reading',
+        'build_child_symbol terminates because the child links are acyclic (table_ok carries a rank function): PROVED to be '
+        'preserved by new / add_node_symbol / add_token_symbol / link_parent_child under (b) and parent != child',
+    ],
+    'findings': [
+        {'clause': 'C26 selection ranges strictly grow outward',
+         'obligation (findings mode)': 'selection_chain:postcondition-not-satisfied[C26.selection.strictly-growing]',
+         'where': 'crates/emmylua_ls/src/handlers/document_selection_range/mod.rs:38-52: every ancestor range is pushed; nothing skips an '
+                  'ancestor whose range equals the previous one',
+         'input': 'document "local x = 1", textDocument/selectionRange at line 0 character 6',
+         'observed': 'chain of text ranges 6..7 (token x), 6..7 (LocalName node), 0..11 (LocalStat), 0..11 (Block), 0..11 (Chunk): '
+                     'parent.range == range at 3 of the 4 links (27 equal links over the 12 offsets of the document)',
+         'replayed': 'scratch copy of the repo + #[cfg(test)] module running the handler loop body verbatim (the handler needs a live '
+                     'ServerContextSnapshot): build/t/c26_ranges/wt, `VR_TEXT=\'local x = 1\' <test binary> vr_selection --nocapture`',
+         'severity': 'LSP 3.17 only demands that parent.range CONTAINS range (proved); strictness is demanded by property C26 as stated'},
+        {'clause': 'C26 document symbols nest within their parents',
+         'obligation (findings mode)': 'build_local_stat_symbol::binding_range:postcondition-not-satisfied[C26.symbols.child-inside-parent]',
+         'where': 'document_symbol/stats.rs:37-41 (and :72-76 for assignments): with more than one name the binding symbol gets '
+                  'range = decl.get_range() (the NAME only); document_symbol/mod.rs:131-135 (and :139-143) then hangs the symbols of the '
+                  'value expression (expr.rs:58 closure, expr.rs:117 table fields) under it',
+         'input': 'document "local a, b = function() end, 2" (also "a, b = { x = 1 }, 2"), textDocument/documentSymbol',
+         'observed': 'symbol a range 0:6-0:7 has child "closure" range 0:13-0:27; for the second input a 0:0-0:1 has child x 0:9-0:14',
+         'replayed': 'same scratch copy, test calling the real build_document_symbol: `VR_TEXT=\'local a, b = function() end, 2\' '
+                     '<test binary> vr_symbols --nocapture` prints CHILD-OUTSIDE-PARENT'},
+    ],
+    'not_covered': [
+        'selection ranges STRICTLY growing: REFUTED on the real code (no code skips equal ranges: a token and its single-child '
+        'parent node have the same range) — only "parent contains child" (non-strict, which is what LSP 3.17 demands) is proved',
+        'selection ranges inside a doc description: the detail ranges produced by add_detail_ranges (parse_desc items sorted by '
+        'length and filtered by `contains(offset)`) are not shown to be nested in each other or in the description node',
+        'the handler prologues (uri -> file id -> semantic model, position -> offset -> token_at_offset) and on_document_symbol '
+        'stripping the root symbol',
+        'document_symbol/{mod,stats,expr}.rs traversal (process_block/process_stat/process_expr, build_*_symbol other than the '
+        'three slices): that it satisfies the preconditions of add_node_symbol is by reading, and FALSE for multi-name bindings',
+        'DocumentSymbolBuilder::{get_file_id, get_decl, get_type, with_symbol_mut, get_symbol_kind_and_detail}, '
+        'LuaSymbol::{set_kind, set_detail} (do not touch ranges or links)',
+        'folding: Intellij branch sets character = start_col + 1 (may point past the end of the line); that lines exist in the '
+        'document is inherited from c22 (positions of in-text offsets)',
+        'completion main edit (sentence 4) and workspace-edit overlap (sentence 5): not covered',
+        'columns are counts of Unicode scalar values (unit c22), not UTF-16 code units (property C23)',
+    ],
+    'samples': [
+        'FoldingRangeBuilder::build: fb_inv ==> every returned FoldingRange has start_line <= end_line (and start_character <= end_character on one line)',
+        'finish_region: pops the innermost open region; pushes ONE range from pos(min(starts)) to pos(max(ends)); empty stack: nothing happens',
+        'get_block_collapsed_range: the element in front of the block ends before the element behind it starts ==> ordered range',
+        'build_imports_fold_range: start of the first .. end of the last require statement of a run',
+        'DocumentSymbolBuilder::build: table_ok ==> ds_sel_ok(r) && ds_nest_ok(r) (recursively: selection inside range, child range inside parent range)',
+        'add_node_symbol: table_ok preserved (ranges nest along links, links closed and acyclic) under the call-site preconditions',
+        'selection_chain: outside descriptions chain[i] == LSP range of the i-th ancestor of the token, chain[i] inside chain[i+1]',
+    ],
+    'mutants': [
+        # ---- folding -----------------------------------------------------------------------------------------------------
+        {'name': 'fold-for-swapped-lines', 'item': 'build_for_stat_fold_range',
+         'pattern': r'start_line: folding_lsp_range\.start\.line,(.*?)end_line: folding_lsp_range\.end\.line,',
+         'repl': r'start_line: folding_lsp_range.end.line,\1end_line: folding_lsp_range.start.line,',
+         'expect': r'build_for_stat_fold_range.*C26\.fold\.start-le-end'},
+        {'name': 'fold-string-start-from-end-line', 'item': 'build_string_fold_range',
+         'pattern': r'start_line: lsp_range\.start\.line,', 'repl': 'start_line: lsp_range.end.line,',
+         'expect': r'build_string_fold_range.*C26\.fold\.start-le-end'},
+        {'name': 'fold-if-swapped', 'item': 'build_if_stat_fold_range',
+         'pattern': r'start_line: range\.start\.line,(.*?)end_line: range\.end\.line,',
+         'repl': r'start_line: range.end.line,\1end_line: range.start.line,',
+         'expect': r'build_if_stat_fold_range.*C26\.fold\.start-le-end'},
+        {'name': 'finish-region-begin-end-as-start', 'item': 'FoldingRangeBuilder::finish_region',
+         'pattern': r'start\.start\(\)\.min\(range\.start\(\)\)', 'repl': 'start.end()',
+         'expect': r'finish_region.*C26\.fold\.region-pairing'},
+        {'name': 'finish-region-no-min-max', 'item': 'FoldingRangeBuilder::finish_region',
+         'pattern': r'let region_start_offset = start\.start\(\)\.min\(range\.start\(\)\);(\s*)let region_end_offset = start\.end\(\)\.max\(range\.end\(\)\);',
+         'repl': r'let region_start_offset = range.start();\1let region_end_offset = start.end();',
+         'expect': r'finish_region.*C26\.fold\.start-le-end'},
+        {'name': 'finish-region-does-not-pop', 'item': 'FoldingRangeBuilder::finish_region',
+         'pattern': r'self\.region_starts\.pop\(\)',
+         'repl': '(if self.region_starts.len() > 0 { Some(self.region_starts[self.region_starts.len() - 1]) } else { None })',
+         'expect': r'finish_region.*C26\.fold\.region-pairing'},
+        {'name': 'collapsed-range-ends-swapped', 'item': 'FoldingRangeBuilder::get_block_collapsed_range',
+         'pattern': r'get_line_col\(prefix_node\.text_range\(\)\.end\(\)\)\?;(.*?)get_line_col\(next_node\.text_range\(\)\.start\(\)\)\?;',
+         'repl': r'get_line_col(next_node.text_range().start())?;\1get_line_col(prefix_node.text_range().end())?;',
+         'expect': r'get_block_collapsed_range.*C26\.fold\.start-le-end'},
+        {'name': 'intellij-start-on-end-line', 'item': 'FoldingRangeBuilder::get_folding_lsp_range',
+         'pattern': r'line: start_line as u32,(\s*)character: start_col as u32,', 'repl': r'line: end_line as u32,\1character: start_col as u32,',
+         'expect': r'get_folding_lsp_range.*C26\.fold\.start-le-end'},
+        {'name': 'vscode-end-line-zero', 'item': 'FoldingRangeBuilder::get_folding_lsp_range',
+         'pattern': r'end: lsp_types::Position \{(\s*)line: end_line as u32,(\s*)character: 0,', 'repl': r'end: lsp_types::Position {\1line: 0,\2character: 0,',
+         'expect': r'get_folding_lsp_range.*C26\.fold\.start-le-end'},
+        {'name': 'imports-swapped', 'item': 'build_imports_fold_range',
+         'pattern': r'get_line_col\(start_pos\)\?;(.*?)get_line_col\(end_pos\)\?;', 'repl': r'get_line_col(end_pos)?;\1get_line_col(start_pos)?;',
+         'expect': r'build_imports_fold_range.*C26\.fold\.start-le-end'},
+        {'name': 'imports-start-and-end-of-statement-swapped', 'item': 'build_imports_fold_range',
+         'pattern': r'start = Some\(range\.start\(\)\);(.*?)end = Some\(range\.end\(\)\);', 'repl': r'start = Some(range.end());\1end = Some(range.start());',
+         'expect': r'build_imports_fold_range.*C26\.fold'},
+        {'name': 'push-drops-range', 'item': 'FoldingRangeBuilder::push',
+         'pattern': r'self\.folding_ranges\.push\(folding_range\);', 'repl': '', 'expect': r'push.*C26\.fold\.push'},
+        {'name': 'build-returns-empty', 'item': 'FoldingRangeBuilder::build',
+         'pattern': r'self\.folding_ranges', 'repl': 'Vec::new()', 'expect': r'build.*C26\.fold\.build-returns-pushed'},
+        # ---- document symbols ------------------------------------------------------------------------------------------------
+        {'name': 'with-selection-range-stores-range', 'item': 'LuaSymbol::with_selection_range',
+         'pattern': r'selection_range: Some\(selection_range\),', 'repl': 'selection_range: Some(range),',
+         'expect': r'with_selection_range.*C26\.symbols\.with-selection-range'},
+        {'name': 'new-stores-other-range', 'item': 'LuaSymbol::new',
+         'pattern': r'(kind,\s*)range,', 'repl': r'\1range: TextRange::empty(range.end()),',
+         'expect': r'LuaSymbol::new.*C26\.symbols\.new'},
+        {'name': 'child-symbol-range-and-selection-swapped', 'item': 'DocumentSymbolBuilder::build_child_symbol',
+         'pattern': r'range: lsp_range,(\s*)selection_range: lsp_selection_range,', 'repl': r'range: lsp_selection_range,\1selection_range: lsp_range,',
+         'expect': r'build_child_symbol.*C26\.symbols\.selection-inside-range'},
+        {'name': 'root-symbol-selection-is-whole-range-swapped', 'item': 'DocumentSymbolBuilder::build',
+         'pattern': r'range: lsp_range,(\s*)selection_range: lsp_selection_range,', 'repl': r'range: lsp_selection_range,\1selection_range: lsp_range,',
+         'expect': r'DocumentSymbolBuilder::build:.*C26\.symbols\.selection-inside-range'},
+        {'name': 'child-recursion-on-same-symbol', 'item': 'DocumentSymbolBuilder::build_child_symbol',
+         'pattern': r'self\.build_child_symbol\(&mut lsp_document_symbol, child_symbol\);', 'repl': 'self.build_child_symbol(&mut lsp_document_symbol, symbol);',
+         'expect': r'build_child_symbol:(decreases|could-not-prove-termination|precondition-not-satisfied)'},
+        {'name': 'link-reversed', 'item': 'DocumentSymbolBuilder::link_parent_child',
+         'pattern': r'get_mut\(&parent\)', 'repl': 'get_mut(&child)',
+         'expect': r'link_parent_child'},
+        {'name': 'add-node-links-parent-under-child', 'item': 'DocumentSymbolBuilder::add_node_symbol',
+         'pattern': r'self\.link_parent_child\(parent_id, syntax_id\);', 'repl': 'self.link_parent_child(syntax_id, parent_id);',
+         'expect': r'add_node_symbol'},
+        {'name': 'add-child-drops-child', 'item': 'LuaSymbol::add_child',
+         'pattern': r'self\.children\.push\(child\);', 'repl': '', 'expect': r'add_child.*C26\.symbols\.add-child'},
+        {'name': 'func-symbol-range-args-swapped', 'item': 'build_func_stat_symbol::symbol',
+         'pattern': r'desc\.0, full_range, name_range\)', 'repl': 'desc.0, name_range, full_range)',
+         'expect': r'build_func_stat_symbol::symbol.*C26\.symbols\.selection-inside-range'},
+        {'name': 'region-symbol-range-args-swapped', 'item': 'build_doc_region_symbol::symbol',
+         'pattern': r'range,(\s*)selection_range,(\s*)\);', 'repl': r'selection_range,\1range,\2);',
+         'expect': r'build_doc_region_symbol::symbol.*C26\.symbols\.selection-inside-range'},
+        # ---- selection ranges ------------------------------------------------------------------------------------------------
+        {'name': 'selection-chain-not-reversed', 'item': 'selection_chain',
+         'pattern': r'ranges\.into_iter\(\)\.rev\(\)', 'repl': 'ranges.into_iter()',
+         'expect': r'selection_chain.*C26\.selection'},
+        {'name': 'selection-ancestors-push-token-range', 'item': 'selection_chain',
+         'pattern': r'let range = ancestor\.text_range\(\);', 'repl': 'let range = token.text_range();',
+         'expect': r'selection_chain.*C26\.selection'},
+        {'name': 'selection-parent-link-dropped', 'item': 'selection_chain',
+         'pattern': r'range: lsp_range,(\s*)parent,', 'repl': r'range: lsp_range,\1parent: None,',
+         'expect': r'selection_chain.*(C26\.selection|precondition-not-satisfied)'},
+    ],
 }
+# the call-site assumptions are part of the trusted base reported in the evidence
+UNIT['trusted'] = UNIT['trusted'] + UNIT['call_site_assumptions']
